@@ -10,7 +10,7 @@ Line protocol of the C15 model driver.  One case per line:
 
 ops (trailing extra elements — e.g. the read path used on the implementation — are ignored):
 `["set_coeffs", null | ["seq", [rat…], …] | ["scalar", rat, …] | ["notflat", len, …] | ["badelems", "text"|"complex", …]]`, `["set_origin", null | ["num", rat, …] | ["bad", …]]`,
-`["read", ix]`, `["view", win, ix]`, `["coeffs"]`, `["origin"]`, `["raw"]`, `["write", [rat…]]`, `["reopen"]`
+`["read", ix]`, `["view", win, ix]`, `["coeffs"]`, `["origin"]`, `["raw"]`, `["ticks", [int…]]`, `["write", [rat…]]`, `["reopen"]`
 with `ix = null | [item…]`, `item = int | [start|null, stop|null, step|null]`, `win = null | [[start, stop], …]`.
 
 Output: `{"ok": [out, …]}`, one `out` per op: `{"ok": value}` or `{"err": "<Err>"}`.
@@ -98,6 +98,7 @@ def parseOp? (j : Json) : Option Op :=
   | Json.str "coeffs" :: _ => some .getCoeffs
   | Json.str "origin" :: _ => some .getOrigin
   | Json.str "raw" :: _ => some .rawDump
+  | Json.str "ticks" :: l :: _ => ((jArr l).toList.mapM jInt?).map Op.linkTicks
   | Json.str "write" :: l :: _ => (parseRats? l).map Op.write
   | Json.str "reopen" :: _ => some .reopen
   | _ => none
